@@ -159,6 +159,29 @@ func init() {
 		st.draws = append(st.draws, Draw{Kind: "int", cnst: []uint64{uint64(lo + k)}})
 		return c64(lo + k)
 	}
+	intrinsics[vrt+"IntOf"] = func(ex *Exec, st *State, fr *Frame, c *ssa.Call, a []Value) Value {
+		s := a[0].(*SliceVal)
+		n, _ := concreteInt(s.len)
+		off, _ := concreteInt(s.off)
+		if ex.cfg.Concrete {
+			return c64(int(ex.nextVec()))
+		}
+		if n == 0 {
+			ex.endPath("infeasible")
+		}
+		conds := make([]*Term, n)
+		for i := range conds {
+			conds[i] = mkBool(true)
+		}
+		k := ex.choose(st, conds, false)
+		v := st.obj(s.obj).elems[off+k].(*Term)
+		cv, ok := concreteInt(v)
+		if !ok {
+			panic(engineErr("IntOf with symbolic alternative"))
+		}
+		st.draws = append(st.draws, Draw{Kind: "int", cnst: []uint64{uint64(cv)}})
+		return v
+	}
 	intrinsics[vrt+"Concrete"] = func(ex *Exec, st *State, fr *Frame, c *ssa.Call, a []Value) Value {
 		return c64(ex.intArg(st, a[0], "Concrete"))
 	}
